@@ -35,6 +35,7 @@ def run(ck):
     ck.rule("R4", "every _getbytes override bounds-checks both ends or converts the source's error to IOError", floor=2)
     ck.rule("R5", "cache lookup and fill use the same key, fill from _getbytes, bypass outside atomic mode", floor=1)
     _offset_rules(ck)
+    _init_order_rules(ck)
 
     # ---------------------------------------------------------------- R1
     cm = ck.repo.mod(CPU)
@@ -271,3 +272,38 @@ def _offset_rules(ck):
                 up = up or entails_nonneg(f, goal)
             ck.ob("R6", "%s._getbytes:upper-bound" % cname, up is not None, m.where(c),
                   "no test on the path implies `%s` + %s <= self.l" % (norm(idx)[:40], ln))
+
+
+def _init_order_rules(ck):
+    """R7: a stream class that configures itself in __init__ (byte order taken from the VM, base address ...) and also runs the base
+    initialiser must run the base initialiser FIRST: `bin_stream.__init__` sets the defaults (`endianness = LITTLE_ENDIAN`, empty cache,
+    atomic mode off), and called afterwards it silently overwrites what the subclass derived - integer reads of a big-endian VM come
+    back byte-swapped."""
+    ck.rule("R7", "a subclass initialiser does not run the base initialiser after setting an attribute the base initialiser assigns", floor=1)
+    m = ck.repo.mod(BS)
+    base = m.func("bin_stream.__init__")
+    base_attrs = set(dotted(t)[5:] for n in walk_body(base) if isinstance(n, ast.Assign) for t in n.targets if dotted(t) and dotted(t).startswith("self."))
+    n = 0
+    for cname, cdef in sorted(m.classes.items()):
+        if cname == "bin_stream":
+            continue
+        init = m.funcs.get("%s.__init__" % cname)
+        if init is None:
+            continue
+        cfg = CFG(init)
+        calls = [nd for nd in cfg.nodes if any((dotted(c.func) or "").endswith(".__init__") and (dotted(c.func).startswith("bin_stream") or "super" in norm(c.func))
+                                                for c in node_calls(nd))]
+        if not calls:
+            continue
+        n += 1
+        early = []
+        for nd in cfg.nodes:
+            if nd.kind == "stmt" and isinstance(nd.ast, ast.Assign):
+                for t in nd.ast.targets:
+                    d = dotted(t)
+                    if d and d.startswith("self.") and d[5:] in base_attrs and any(cfg.can_reach(nd.id, c.id) for c in calls if c is not nd):
+                        early.append(d)
+        ck.ob("R7", "%s.__init__:base-init-first" % cname, not early, m.where(init),
+              "%s sets %s and then runs the base initialiser, which assigns the same attribute(s): the derived value is overwritten by the default"
+              % (cname, sorted(set(early))))
+    ck.ob("R7", "subclass-initialisers-seen", n >= 1, BS, "no subclass initialiser calling the base initialiser found (extractor blind)")
